@@ -85,6 +85,82 @@ def boundary_templates():
             out.append('\\1.%s%d' % (sign, n))
     out += ['\\1.-', '\\1.+', '\\1. ', '\\1.- 1', '\\1.--1', '\\1.+-1', '\\1.-x', '\\2.-1\\.', '\\1.\\-1']
     return out
+# --------------------------------------------------------------------------
+# C12_macros: parse-time expansion of the real parser against Spec.mexpand (Spec/Macro.lean)
+# --------------------------------------------------------------------------
+
+# (position, action context?, test block with %s for the string, field of the dumped tree holding the result)
+MACRO_POSITIONS = [
+    ('move', True, 'maildir "t" { match all move "%s" }', lambda t: t[t.index('move') + 2]),
+    ('label', True, 'maildir "t" { match all label "%s" }', lambda t: t[t.index('label') + 3]),
+    ('exec', True, 'maildir "t" { match all exec "%s" }', lambda t: t[t.index('exec') + 5]),
+    ('add-header value', True, 'maildir "t" { match all add-header "k" "%s" }', lambda t: t[t.index('addheader') + 3]),
+    ('add-header name', False, 'maildir "t" { match all add-header "%s" "v" }', lambda t: t[t.index('addheader') + 2]),
+    ('flags', False, 'maildir "t" { match all flags "%s" }', lambda t: t[t.index('flags') + 2]),
+    ('header name', False, 'maildir "t" { match header "%s" /x/ break }', lambda t: t[t.index('header') + 3]),
+    ('isdirectory', False, 'maildir "t" { match isdirectory "%s" break }', lambda t: t[t.index('stat') + 2]),
+    ('command', False, 'maildir "t" { match command "%s" break }', lambda t: t[t.index('command') + 3]),
+    ('maildir path', False, 'maildir "%s" { match all break }', lambda t: t[t.index('B') + 2]),
+    ('macro value', False, 'z = "%s"\nmaildir "${z}" { match all break }', lambda t: t[t.index('B') + 2]),
+]
+MACRO_PIECES = ['$', '{', '}', 'a', 'b', 'path', 'x', '/', ' ', '${a}', '${b}', '${c}', '${d}', '${e}', '${path}', '${nosuch}', '${', '$$', '${a', '$}',
+                '${c}${d}', '${a}${a}', '${}', '${ a}']
+# the macros of the file (each used once in the first block so that none is "unused") and one given with -D
+MACRO_FILE = 'a = "x"\nb = "${a}y"\nc = "$"\nd = "{a}"\nmaildir "${a}${b}${c}${d}${e}" { match all break }\n'
+MACRO_TABLE = [(b'a', b'x'), (b'b', b'xy'), (b'c', b'$'), (b'd', b'{a}'), (b'e', b'E${a}')]
+
+
+def macro_stage(rep, rng, sc, n):
+    """The strings the REAL parser leaves in its trees (harness h_parse: config_parse with the -D table entered as mdsort.c does)
+    against the documented single pass `Spec.mexpand`, in every string position of the grammar."""
+    h = sc.unit_harness('h_parse', ['parse.c'])
+    henv = dict(vlib.ASAN_ENV, HARNESS_TMP=sc.dir)
+    cases = []
+    fixed = ['${a}', '${b}', '${c}${d}', '${e}', '${path}', 'x${path}y', '${nosuch}', '${a', 'plain', '$', '$a', '${a}${path}${b}', '${d}${c}']
+    for pos in MACRO_POSITIONS:
+        for s in fixed:
+            cases.append((pos, s))
+    for _ in range(n):
+        cases.append((rng.choice(MACRO_POSITIONS), ''.join(rng.choice(MACRO_PIECES) for _ in range(rng.randrange(1, 6)))))
+    sticky = [rng.random() < 0.3 for _ in cases]          # -D b=B: the definition of b in the file is dropped
+    reqs, sreqs = [], []
+    for (pos, s), st in zip(cases, sticky):
+        conf = MACRO_FILE + pos[2] % s + '\n'
+        defs = [(b'e', b'E${a}')] + ([(b'b', b'B')] if st else [])
+        table = [(k, (b'B' if (st and k == b'b') else v)) for k, v in MACRO_TABLE]
+        reqs.append('conf %s %s %s' % (vlib.hexs(conf.encode()), vlib.hexs(b'/home/u'), ' '.join('%s %s' % (vlib.hexs(k), vlib.hexs(v)) for k, v in defs)))
+        sreqs.append('S mexpand %s %s %s' % (vlib.hexs(b'1' if pos[1] else b'0'), vlib.hexs(s.encode()),
+                                            ' '.join('%s %s' % (vlib.hexs(k), vlib.hexs(v)) for k, v in table)))
+    impl = vlib.run_batch([h], reqs, henv)
+    spec = vlib.run_batch([vlib.driver_path()], sreqs)
+    bad, stat = [], {'cases': len(cases), 'expanded': 0, 'errors': 0, 'with_reference': 0, 'sticky': sum(sticky)}
+    for (pos, s), st, im, sp in zip(cases, sticky, impl, spec):
+        if '${' in s:
+            stat['with_reference'] += 1
+        what = None
+        if sp == 'NONE':
+            stat['errors'] += 1
+            if not im.startswith('ERR'):
+                what = 'the specification says error, the parser answered %s' % im[:200]
+        elif sp.startswith('OK '):
+            if not im.startswith('OK'):
+                what = 'the specification says %r, the parser answered %s' % (vlib.unhex(sp[3:]), im[:200])
+            else:
+                blocks = [b.strip().split(' ') for b in im[2:].split(' ;')]
+                try:
+                    got = vlib.unhex(pos[3](blocks[1]))
+                except (ValueError, IndexError):
+                    got = None
+                stat['expanded'] += 1
+                if got != vlib.unhex(sp[3:]):
+                    what = 'string in the tree %r, specification %r' % (got, vlib.unhex(sp[3:]))
+        else:
+            what = 'driver answered %s' % sp[:100]
+        if what:
+            bad.append({'position': pos[0], 'action_context': pos[1], 'string': s, 'D_b': st, 'what': what})
+    for b in bad[:5]:
+        rep.finding('unlisted', dict(b, kind='parse-time macro expansion'))
+    return stat, bad
 
 
 def run(rep):
@@ -255,8 +331,16 @@ def run(rep):
         rep.violation({'obligation': 'correspondence match.c (interpolate, match_interpolate) <-> Model/Eval.lean',
                        'disagreements': len(corr_bad),
                        'examples': [dict(c.readable(), implementation=ec.impl_core(c), model=c.model) for c in corr_bad[:5]]}, False)
+    mstat, mbad = macro_stage(rep, rng, sc, 400 if rep.tier == 'quick' else 20000)
     vlib.lean_conclude(rep)
     rep.coverage.update({
+        'macro_expansion': mstat,
+        'macro_spec_failures': len(mbad),
+        'macro_rule': 'C12_macros: strings over `$ { } ${name} ${path} ${nosuch} ${` in each of the 11 string positions of the grammar (move, label, '
+                      'exec, add-header value = action context; add-header name, flags, header name, isdirectory, command, maildir path, macro '
+                      'value = default context), with macros defined in the file (one built from another, two whose values concatenate to a '
+                      'reference) and with -D (also overriding a definition of the file): the string the REAL parser leaves in its tree, or its '
+                      'rejection, against Spec.mexpand (one pass, values verbatim, ${path} deferred in action contexts only)',
         'evaluations': len(cases),
         'distinct_nontrivial': len(set((c.conf, c.msg) for c, e, pre, items in checks if any(b'\\' in t or b'${' in t for (k, i, t, cp) in items))),
         'rule': '%d generated rules x 2 messages with 1-3 capturing header/body patterns (flags i/l/u) and argument templates mixing literals, '
